@@ -271,6 +271,33 @@ func c01Exec(es []*twig.Engine, o c01Op, poisonSeed int64) (res string, out stri
 	case "attr":
 		s, err := e.Render("o"+strconv.Itoa(o.Tpl%len(c01ObjectTemplates)), map[string]interface{}{"a": c01Object(o.Ty, o.Ptr)})
 		return c01Class(s, err), s
+	case "alias":
+		// the template held under name n also registered under a second name
+		if t, err := e.Load(c01Name(o.N)); err == nil {
+			e.RegisterTemplate(c01Name(o.Tpl), t)
+		}
+	case "handle":
+		// the caller keeps what Load returns
+		if t, err := e.Load(c01Name(o.N)); err == nil {
+			c01Handles[c01HandleKey(e, o.N)] = t
+		} else {
+			delete(c01Handles, c01HandleKey(e, o.N))
+		}
+	case "renderalias", "renderhandle":
+		ctx := map[string]interface{}{}
+		for k, v := range o.Vars {
+			ctx[k] = v
+		}
+		if o.Kind == "renderalias" {
+			s, err := e.Render(c01Name(o.N), ctx)
+			return c01Class(s, err), s
+		}
+		t := c01Handles[c01HandleKey(e, o.N)]
+		if t == nil {
+			return "no-handle", ""
+		}
+		s, err := t.Render(ctx)
+		return c01Class(s, err), s
 	case "flood":
 		// another engine renders another template: enough distinct (type, attribute) pairs to roll the
 		// process-wide attribute cache over
@@ -286,10 +313,19 @@ func c01Exec(es []*twig.Engine, o c01Op, poisonSeed int64) (res string, out stri
 	return "", ""
 }
 
-func c01IsConfig(o c01Op) bool { return o.Kind == "register" || o.Kind == "togglecache" }
+func c01IsConfig(o c01Op) bool {
+	return o.Kind == "register" || o.Kind == "togglecache" || o.Kind == "alias" || o.Kind == "handle"
+}
+
+// handles kept by the caller, per engine and name
+var c01Handles = map[string]*twig.Template{}
+
+func c01HandleKey(e *twig.Engine, n int) string { return fmt.Sprintf("%p/%d", e, n) }
 
 // operations whose result is compared with the pristine reference
-func c01HasResult(o c01Op) bool { return o.Kind == "render" || o.Kind == "load" || o.Kind == "attr" }
+func c01HasResult(o c01Op) bool {
+	return o.Kind == "render" || o.Kind == "load" || o.Kind == "attr" || o.Kind == "renderalias" || o.Kind == "renderhandle"
+}
 
 // c01Pristine: the result of operation h.Ops[k] (a render or a load) on freshly created engines that are given
 // the registrations and cache settings of h.Ops[:k], with every pool emptied first.
